@@ -207,6 +207,82 @@ def zero_stripping_direction(chk):
     chk.floor('zero-skipping loops classified', n, 15)
 
 
+def pkcs1_v15_template(chk):
+    """RFC 8017 9.2 (EMSA-PKCS1-v1_5), as br_rsa_pkcs1_sig_unpad checks it: 00 01, at least eight FF, 00, DigestInfo, hash - and nothing
+    else.  Structural clauses: (a) the fixed prefix compared at offset 0 is exactly 00 01 FF x 8; (b) the loop that skips further FF
+    starts right after that prefix; (c) every test on what remains after the padding (sig_len - u, in the no-OID branch of TLS 1.0 /
+    1.1 signatures and in the two DigestInfo variants) is an *equality*: an inequality lets garbage sit between the padding and the
+    hash, which with e = 3 is Bleichenbacher's signature forgery; (d) the minimum length gate (11) is decided by the obligations
+    above."""
+    from .. import tab
+    R = 'pkcs1-v15-template'
+    src = 'src/rsa/rsa_pkcs1_sig_unpad.c'
+    u = build.load_unit(src)
+    F = next((irf.Func(u, f) for f in u['functions'] if f['name'] == 'br_rsa_pkcs1_sig_unpad' and f.get('blocks')), None)
+    if F is None:
+        raise AnalysisBroken('br_rsa_pkcs1_sig_unpad vanished')
+    SIG, SIGLEN = {'k': 'a', 'v': 0}, {'k': 'a', 'v': 1}
+    # (a) the prefix
+    mc = [c for c in F.calls('memcmp') if F.addr_of(c['ops'][0]) == (SIG, 0) or F.addr_of(c['ops'][1]) == (SIG, 0)]
+    inst = 'br_rsa_pkcs1_sig_unpad: the signature starts with 00 01 and eight FF (compared as one constant block)'
+    if len(mc) != 1:
+        chk.violation(R, inst, F.where(), '%d comparisons of the start of the signature found' % len(mc), key=R + ' prefix')
+    else:
+        other = mc[0]['ops'][1] if F.addr_of(mc[0]['ops'][0]) == (SIG, 0) else mc[0]['ops'][0]
+        g = F.strip_casts(other)
+        gname = g.get('v') if g['k'] == 'g' else None
+        if gname is None:
+            b, o = F.addr_of(other)
+            gname = b.get('v') if b['k'] == 'g' and o == 0 else None
+        vals = tab.ints_of_global(u, gname) if gname else None
+        n = mc[0]['ops'][2].get('v') if mc[0]['ops'][2]['k'] == 'c' else None
+        ref = [0, 1] + [255] * 8
+        if vals is not None and vals[:n or 0] == ref and n == 10:
+            chk.ok(R, inst, F.where(mc[0]))
+        else:
+            chk.violation(R, inst, F.where(mc[0]), 'the block compared is %s (%s bytes): %s' % (vals, n,
+                          'fewer than eight FF are required - RFC 8017 demands at least eight' if vals and vals[:2] == [0, 1] and all(v == 255 for v in vals[2:]) else 'not the EMSA prefix'),
+                          key=R + ' prefix')
+        # (b) the FF loop starts at the end of the prefix
+        inst = 'br_rsa_pkcs1_sig_unpad: the scan over further FF bytes starts right after the fixed prefix'
+        def indexes_sig(pid):
+            for x in F.insts.values():
+                if x['op'] == 'getelementptr' and F.strip_casts(x['ops'][0]) == SIG and any(F.strip_casts(v) == {'k': 'i', 'v': pid} for v, sc in (x.get('var') or [])):
+                    return True
+            return False
+        phis = [i for i in F.insts.values() if i['op'] == 'phi' and any(o['k'] == 'c' for o in i['ops']) and indexes_sig(i['id'])]
+        starts = sorted(set(o['v'] for i in phis for o in i['ops'] if o['k'] == 'c'))
+        if starts == [n]:
+            chk.ok(R, inst, F.where(phis[0]))
+        elif not phis:
+            raise AnalysisBroken('br_rsa_pkcs1_sig_unpad: the index of the FF scan was not found')
+        else:
+            chk.violation(R, inst, F.where(phis[0]), 'the scan starts at %s, the prefix is %s bytes' % (starts, n), key=R + ' scan')
+    # (c) equalities on the remaining length
+
+    def from_remaining(o, depth=0):
+        o = F.strip_casts(o)
+        if o['k'] != 'i' or depth > 4:
+            return False
+        i = F.insts[o['v']]
+        if i['op'] == 'sub':
+            if F.strip_casts(i['ops'][0]) == SIGLEN and F.strip_casts(i['ops'][1])['k'] == 'i':
+                return True
+            return from_remaining(i['ops'][0], depth + 1)
+        return False
+    cm = [i for i in F.insts.values() if i['op'] == 'icmp' and (from_remaining(i['ops'][0]) or from_remaining(i['ops'][1]))]
+    inst = 'br_rsa_pkcs1_sig_unpad: every test of the length remaining after the FF padding is an equality (%d tests)' % len(cm)
+    if len(cm) < 3:
+        chk.violation(R, inst, F.where(), 'only %d tests of sig_len - u found (no-OID branch, DigestInfo with and without NULL parameters expected)' % len(cm), key=R + ' remaining')
+    else:
+        bad = [i for i in cm if i['pred'] not in ('eq', 'ne')]
+        if bad:
+            chk.violation(R, inst, F.where(bad[0]), 'the comparison is `%s`: bytes may sit between the padding and the hash (with e = 3 a forged signature can be '
+                          'built by cube root)' % bad[0]['pred'], key=R + ' remaining')
+        else:
+            chk.ok(R, inst, F.where(cm[0]))
+
+
 def pubexp_width_gate(chk):
     """br_rsa_iXX_compute_pubexp returns the public exponent only when it fits 32 bits (0 otherwise).  The gate compares the *encoded* bit
     length returned by br_iXX_bit_length ((word index << s) + bits in the top word) with a constant: that constant must be
@@ -532,6 +608,7 @@ def run(tier):
     keygen_forced_bits(chk)
     zero_stripping_direction(chk)
     pubexp_width_gate(chk)
+    pkcs1_v15_template(chk)
     pubexp_fully_converted(chk)
     modpow_temporaries(chk)
     client_keyx_padding(chk)
